@@ -216,6 +216,16 @@ class Effects:
             if text == prefix or (text.startswith(prefix) and prefix.endswith(("[", "("))):
                 return kind
         f = call.func
+        if isinstance(f, ast.Name):
+            # handler = self.rules[...] / self.rules.get(...); handler(child)
+            _, binds = self.lookup(f.id, fi)
+            for kind_, v, path in binds or []:
+                if kind_ == "assign" and v is not None and not path:
+                    if isinstance(v, ast.Call) and isinstance(v.func, ast.Attribute) and v.func.attr == "get":
+                        v = ast.Subscript(value=v.func.value, slice=ast.Constant(""), ctx=ast.Load())
+                    if isinstance(v, ast.Subscript):
+                        f = v
+                        break
         if isinstance(f, ast.Subscript) and isinstance(f.value, ast.Attribute) and f.value.attr == "rules":
             try:
                 t = self.g.expr_type(f.value.value, fi)
